@@ -1,6 +1,7 @@
 package main
 
 import (
+	"sort"
 	"fmt"
 	"go/ast"
 	"go/constant"
@@ -805,6 +806,20 @@ func (u *Unit) specCall(env *specEnv, x *ast.CallExpr) Val {
 		return scalar(tApp("strof", v.Arr), SStr, types.Typ[types.String])
 	case "frontier":
 		return intVal(env.st.frontier)
+	case "hasmethods":
+		// hasmethods(v, M1, M2...): the dynamic type of interface value v has these methods - the same predicate a type
+		// assertion to the anonymous interface { M1(...); M2(...) } uses in the code (names only, sorted)
+		v := u.specEval(env, x.Args[0])
+		var ms []string
+		for _, a := range x.Args[1:] {
+			if id, ok := a.(*ast.Ident); ok {
+				ms = append(ms, id.Name)
+			}
+		}
+		sort.Strings(ms)
+		fn := smtName("implements$iface{" + strings.Join(ms, ",") + "}")
+		u.decls.declFun(fn, []string{SInt}, SBool)
+		return boolVal(tAnd(tNot(tEq(v.S, "0")), tApp(fn, tApp("dyntype", v.S))))
 	case "won":
 		// won(x.f): this goroutine has won a CompareAndSwap transition on the state word x.f during this call
 		v := u.specEval(env, x.Args[0])
